@@ -216,7 +216,8 @@ fn run_one(case: &CCase, sched_lines: &[String], free_seed: Option<u64>) -> Vec<
         }
         let g = sched.st.lock().unwrap();
         let done = g.parked.len() == threads.len() && g.parked.values().all(|n| n == "end");
-        if !done { out.push(format!("X not all calls returned: parked {:?}", g.parked)); }
+        // not an alarm by itself: the workers are released below and must then run to completion
+        if !done { out.push(format!("N exploration stopped with calls in flight: parked {:?}", g.parked)); }
     }
     for l in sched_lines {
         let t: Vec<&str> = l.split_whitespace().collect();
